@@ -399,3 +399,27 @@ VARIANTS += [
  run_variant('benign-stderr-buffer-preallocated', 'silent', r_nest(pre='\tstderr.Grow(512)\n\tstderr.Reset()\n\terr := cmd.Run()\n'), why='the buffer is touched before Run only'),
  run_variant('benign-start-then-wait-stderr-local', 'silent', start_wait(wait='\terr := cmd.Wait()\n\terrBytes := stderr.Bytes()\n').replace('\t\t\treturn nil, stderr.Bytes(), fmt.Errorf', '\t\t\treturn nil, errBytes, fmt.Errorf').replace('\t\treturn nil, stderr.Bytes(), err\n\t}\n\treturn stdout', '\t\treturn nil, errBytes, err\n\t}\n\treturn stdout'), why='Start + Wait; the bytes taken after Wait'),
 ]
+
+# ---- the runner waits for nothing but the process (checker/blocking.go; seed C17-7) ----
+_NB = 'flagged(runner/no-unbounded-blocking)'
+_STDIN = '\tcmd.Stdin = bytes.NewReader(req)\n'
+_RUNLINE = '\terr := cmd.Run()\n'
+VARIANTS += [
+ dict(name='blocking-own-pipe-written-before-run', file=P, expect=_NB, find=_STDIN,
+      replace='\tpr, pw, perr := os.Pipe()\n\tif perr != nil {\n\t\treturn nil, nil, perr\n\t}\n\tdefer pr.Close()\n\tcmd.Stdin = pr\n\tif _, werr := pw.Write(req); werr != nil {\n\t\treturn nil, nil, werr\n\t}\n\tpw.Close()\n',
+      why='the request is written into a pipe the runner made itself: a large request blocks before the process exists'),
+ dict(name='blocking-waits-for-own-goroutine', file=P, expect=_NB, find=_RUNLINE,
+      replace='\tdone := make(chan error, 1)\n\tgo func() { done <- cmd.Run() }()\n\terr := <-done\n',
+      why='Run in a goroutine, the runner waits on a bare channel receive'),
+ dict(name='blocking-sleep-before-run', file=P, expect=_NB, find=_RUNLINE, replace='\ttime.Sleep(pluginWaitDelay)\n\terr := cmd.Run()\n', why='a sleep the context does not cut'),
+ dict(name='benign-run-in-helper', file=P, expect='silent', find=_RUNLINE, replace='\terr := runCommand(cmd)\n',
+      edits=[(P, VAL_HOOK, 'func runCommand(cmd *exec.Cmd) error {\n\treturn cmd.Run()\n}\n\n' + VAL_HOOK)], why='Run behind a one-line helper'),
+ dict(name='benign-run-select-on-context', file=P, expect='silent', find=_RUNLINE,
+      replace='\tdone := make(chan error, 1)\n\tgo func() { done <- cmd.Run() }()\n\tvar err error\n\tselect {\n\tcase err = <-done:\n\tcase <-ctx.Done():\n\t\terr = <-done\n\t}\n', why=None) if False else None,
+]
+VARIANTS = [v for v in VARIANTS if v]
+VARIANTS += [
+ dict(name='run-helper-swallows-exit-status', file=P, expect='flagged', find=_RUNLINE, replace='\terr := runCommand(cmd)\n',
+      edits=[(P, VAL_HOOK, 'func runCommand(cmd *exec.Cmd) error {\n\tif err := cmd.Run(); err != nil {\n\t\tif _, isExit := err.(*exec.ExitError); !isExit {\n\t\t\treturn err\n\t\t}\n\t}\n\treturn nil\n}\n\n' + VAL_HOOK)],
+      why='the helper reports success although the process failed: stdout of a failed process is returned as the reply'),
+]
